@@ -15,13 +15,17 @@ from .names import find, norm
 
 # ---------------------------------------------------------------------------- lowering
 
+def java_rt_dir():
+    return build.shared_dir('java_rt', glob.glob(os.path.join(build.VERIF, 'runtimes', 'java', '**', '*.java'), recursive=True))
+
+
 def lower_java(progs, emits, tag):
     """javac all programs (one package per program is not possible: the JavaPackage option is
     shared), so each program is compiled into its own output directory; javap text is cached."""
     cd = build.cache_dir()
     base = os.path.join(cd, 'java_' + tag)
     done = os.path.join(base, 'DONE')
-    rt = os.path.join(cd, 'java_rt')
+    rt = java_rt_dir()
     if not os.path.exists(os.path.join(rt, 'DONE')):
         shutil.rmtree(rt, ignore_errors=True)
         os.makedirs(rt)
